@@ -187,6 +187,7 @@ fn f32_parts(bits: u32) -> (u64, i32) {
 
 const SPECIALS: &[&str] = &[
     "0", "-0", "0.0", "-0.0", "0e0", "0E-0", "0.000e+999", "-0e-999", "1", "-1", "1.0", "1e0", "10", "123", "0.5", "0.1", "0.2", "0.3",
+    "2305843009213660156999999999999e-242", "2305843009213626122999999999999e-242", "2.305843009213660156999999999999e-212", "2305843009213660156e-230", "2305843009213660157e-230",
     "5e-324", "4.9e-324", "4.9406564584124654e-324", "2.47e-324", "2.4703282292062327e-324", "2.4703282292062328e-324", "2.4703282292062329e-324",
     "2.470328229206232720882843964341106861825299013071623822127928412503377536351043e-324",
     "2.470328229206232720882843964341106861825299013071623822127928412503377536351044e-324",
